@@ -545,7 +545,7 @@ class Interp:
             if not isinstance(v, Enum): raise Unsupported('discriminant of %r' % (v,))
             return self.discr(v)
         if k == 'binop':
-            return self.binop(rv[1], self.operand(frame, rv[2], fn), self.operand(frame, rv[3], fn), fn, rv[2])
+            return self.binop(rv[1], self.operand(frame, rv[2], fn), self.operand(frame, rv[3], fn), fn, rv[2], rv[3])
         if k == 'unop':
             v = self.operand(frame, rv[2], fn)
             if rv[1] == 'Not':
@@ -632,6 +632,10 @@ class Interp:
             if not pl.proj: return fn.locals.get(pl.local, '')
             last = pl.proj[-1]
             if last[0] == 'field': return last[2]
+            if last[0] == 'deref':
+                inner = self.operand_ty(fn, (op[0], Place(pl.local, pl.proj[:-1])))
+                m = re.match(r"^(?:&(?:'\w+ )?(?:mut )?|\*(?:const|mut) |std::boxed::Box<)(.*?)>?$", inner)
+                if m: return m.group(1)
             return ''
         if op[0] == 'const':
             m = re.match(r'^(-?[\d_]+)_(\w+)$', op[1])
@@ -639,7 +643,7 @@ class Interp:
             if op[1] in ('true', 'false'): return 'bool'
         return ''
 
-    def binop(self, op, a, b, fn, aop):
+    def binop(self, op, a, b, fn, aop, bop=None):
         abool = isinstance(a, bool) or (is_sym(a) and z3.is_bool(a))
         bbool = isinstance(b, bool) or (is_sym(b) and z3.is_bool(b))
         if abool or bbool:
@@ -656,6 +660,8 @@ class Interp:
         if op == 'Gt': return a > b
         if op == 'Ge': return a >= b
         ty = self.operand_ty(fn, aop); bits = INTBITS.get(ty)
+        if bits is None and bop is not None:
+            ty = self.operand_ty(fn, bop); bits = INTBITS.get(ty)
         if op in ('AddWithOverflow', 'SubWithOverflow', 'MulWithOverflow'):
             r = {'A': a + b, 'S': a - b, 'M': a * b}[op[0]]
             if bits is None: raise Unsupported('overflow op on unknown type ' + ty)
